@@ -190,3 +190,52 @@ pub async fn run(bin: &str, out_path: &str) -> eyre::Result<()> {
     f.flush()?;
     Ok(())
 }
+
+/// restore-cache-probe: a plain SQLite destination in WAL (or rollback) mode, cleanly closed; a reader connection C1
+/// opened afterwards that has read PART of the table (so it holds some pages in its cache); the real `corrosion
+/// restore`; a second connection C2 that reads first after the restore; then C1 reads everything.
+pub fn cache_probe(bin: &str, out_path: &str) -> eyre::Result<()> {
+    let mut results = vec![];
+    for (mode, same_shape) in [("wal", true), ("wal", false), ("delete", true), ("delete", false)] {
+        let dir = fresh_dir("cacheprobe");
+        let conf = write_conf(&dir)?;
+        let dst = dir.join("corrosion.db");
+        let src = dir.join("snapshot.db");
+        let fill = |p: &std::path::Path, tag: &str, n: i64, mode: &str| -> rusqlite::Result<()> {
+            let c = rusqlite::Connection::open(p)?;
+            c.execute_batch(&format!("PRAGMA journal_mode = {mode}; CREATE TABLE tests (id INTEGER NOT NULL PRIMARY KEY, text TEXT NOT NULL DEFAULT '');"))?;
+            c.execute(
+                &format!("WITH RECURSIVE c(x) AS (SELECT 1 UNION ALL SELECT x + 1 FROM c WHERE x < {n}) INSERT INTO tests (id, text) SELECT x, '{tag}-' || x || '-' || printf('%0200d', x) FROM c"),
+                [],
+            )?;
+            if mode == "wal" {
+                c.execute_batch("PRAGMA wal_checkpoint(TRUNCATE);")?;
+            }
+            Ok(())
+        };
+        // same_shape: both files went through the same number of transactions and have the same size
+        fill(&dst, "old", 400, mode)?;
+        fill(&src, "new", if same_shape { 400 } else { 650 }, "wal")?;
+        let digest = |c: &rusqlite::Connection| -> String {
+            match c.query_row("SELECT COUNT(*) || '|' || SUM(id) || '|' || SUM(text LIKE 'old-%') || '|' || SUM(text LIKE 'new-%') FROM tests", [], |r| r.get::<_, String>(0)) {
+                Ok(d) => d,
+                Err(e) => format!("REFUSED {e}"),
+            }
+        };
+        let old_digest = digest(&rusqlite::Connection::open(&dst)?);
+        let new_digest = digest(&rusqlite::Connection::open(&src)?);
+        // C1: opened on the quiescent destination, reads a few rows only
+        let c1 = rusqlite::Connection::open(&dst)?;
+        let partial: String = c1.query_row("SELECT GROUP_CONCAT(substr(text, 1, 3)) FROM tests WHERE id IN (1, 200)", [], |r| r.get(0))?;
+        let (ok, log) = run_bin(bin, &conf, &["restore", src.to_str().unwrap()]);
+        let c2_first = digest(&rusqlite::Connection::open(&dst)?);
+        let c1_after = digest(&c1);
+        let c1_again = digest(&c1);
+        results.push(json!({"mode": mode, "same_shape": same_shape, "restore_ok": ok, "log": log, "old": old_digest, "new": new_digest, "c1_partial_before": partial,
+                            "c2_first_after": c2_first, "c1_after": c1_after, "c1_again": c1_again}));
+    }
+    let mut f = std::io::BufWriter::new(std::fs::File::create(out_path)?);
+    writeln!(f, "{}", json!({"cases": results}))?;
+    f.flush()?;
+    Ok(())
+}
